@@ -71,7 +71,7 @@ func (w *Worker) runPath(prefix []Decision) {
 		if ex.opts.Trace {
 			msg += "\n" + string(debug.Stack())
 		}
-		ex.noteInconclusive(trim(msg, 400))
+		ex.noteInconclusive(trim(msg, 3000))
 	}
 	p.status = status
 	p.finish(status)
